@@ -229,23 +229,14 @@ Section IdealProofs.
   Lemma protected_rejected_by_homestead t : is_protected (t_v t) = true ->
     sender oracle H Homestead t = SErrInvalidSig.
   Proof.
-    intros P. destruct (sender oracle H Homestead t) eqn:E; try reflexivity; exfalso.
-    - apply sender_ok in E. destruct E as (v & hs & Hv & _ & _ & [[EV _]|[_ [_ (c & Ec & _)]]]); [|discriminate].
-      apply protected_not_27_28 in P. lia.
-    - cbn [sender] in E. unfold recover_plain, ecrecover in E.
-      destruct (256 <=? Z.abs (Z.of_N (t_v t)))%Z; [discriminate|].
-      match type of E with (if negb ?b then _ else _) = _ => destruct b eqn:V end; cbn [negb] in E; [|discriminate].
-      apply sig_values in V. destruct V as (_ & _ & Hv).
-      match type of Hv with (?x = 0 \/ _) => set (v := x) in * end.
-      assert (Hz : Z.of_N v = ((Z.abs (Z.of_N (t_v t)) mod 18446744073709551616 - 27) mod 256)%Z).
-      { unfold v. rewrite Z2N.id; [reflexivity|apply Z.mod_pos_bound; lia]. }
-      apply protected_not_27_28 in P.
-      destruct (256 <=? Z.abs (Z.of_N (t_v t)))%Z eqn:B; [|apply Z.leb_gt in B; lia].
-      discriminate.
-    - cbn [sender] in E. unfold recover_plain, ecrecover in E.
-      destruct (256 <=? Z.abs (Z.of_N (t_v t)))%Z; [discriminate|].
-      match type of E with (if negb ?b then _ else _) = _ => destruct b end; cbn [negb] in E; [|discriminate].
-      destruct (oracle _ _ _) as [[? ?]|]; [destruct (bytes_eqb _ _)|]; discriminate.
+    intros P. apply protected_not_27_28 in P. cbn [sender]. unfold recover_plain.
+    destruct (256 <=? Z.abs (Z.of_N (t_v t)))%Z eqn:B; [reflexivity|]. apply Z.leb_gt in B.
+    set (v := Z.to_N ((Z.abs (Z.of_N (t_v t)) mod 18446744073709551616 - 27) mod 256)).
+    destruct (validate_signature_values v (t_r t) (t_s t) true) eqn:V; [|reflexivity].
+    exfalso. apply sig_values in V. destruct V as (_ & _ & Hv).
+    assert (Hz : Z.of_N v = ((Z.abs (Z.of_N (t_v t)) mod 18446744073709551616 - 27) mod 256)%Z).
+    { unfold v. rewrite Z2N.id; [reflexivity|apply Z.mod_pos_bound; lia]. }
+    lia.
   Qed.
 
   (** ** sign then recover (types.SignTx followed by Sender under the same signer) *)
